@@ -75,7 +75,7 @@ def skipCond (P : Params) (t : Tree) (o : Opts) (s : BSt) (l : Label) (d : Def) 
   !o.always && (((depsOf t l d).all fun x =>
       match info.deps.lookup x, s.memo x with
       | some st, some m => !m.changed && st == m.data
-      | _, _ => false) && (!P.depCount || info.deps.length == (depsOf t l d).length)) && upToDate P s.w d info && !info.rerun
+      | _, _ => false) && (!P.depCount || info.deps.length == (depsOf t l d).length) && attrsOK P d info) && upToDate P s.w d info && !info.rerun
 
 theorem plan_of_depsok {P : Params} {t : Tree} {o : Opts} {s : BSt} {l : Label} {d : Def}
     (hok : ∀ y ∈ depsOf t l d, ∃ m, s.memo y = some m ∧ m.ok = true) :
